@@ -12,6 +12,7 @@ import (
 	"go/types"
 	"strings"
 
+	"golang.org/x/tools/go/packages"
 	"golang.org/x/tools/go/ssa"
 )
 
@@ -155,6 +156,27 @@ func (e *Engine) checkContract(con *Contract) (*checkedContract, error) {
 				pos = l.Body.Lbrace + 1
 			}
 		}
+		if cl.kind == "at" && strings.HasPrefix(cl.at, "call:") {
+			cpos, err := findCallPos(body, ci.info, pkg, strings.TrimPrefix(cl.at, "call:"))
+			if err != nil {
+				return nil, fmt.Errorf("%s: %v", cl.pos, err)
+			}
+			cl.callPos = cpos
+			pos = cpos
+			cl.callExtra = callResultParams(body, pkg.TypesInfo, pkg.Types, cpos)
+		} else if cl.kind == "at" {
+			found := token.NoPos
+			ast.Inspect(body, func(n ast.Node) bool {
+				if ls, ok := n.(*ast.LabeledStmt); ok && ls.Label.Name == cl.at {
+					found = ls.Stmt.Pos()
+				}
+				return true
+			})
+			if !found.IsValid() {
+				return nil, fmt.Errorf("%s: %s has no label %s", cl.pos, con.name, cl.at)
+			}
+			pos = found
+		}
 		if cl.kind == "modifies" {
 			for _, part := range splitTop(cl.text, ',') {
 				part = strings.TrimSpace(part)
@@ -177,7 +199,16 @@ func (e *Engine) checkContract(con *Contract) (*checkedContract, error) {
 		if cl.kind == "hint" {
 			retType = ""
 		}
-		ex, err := e.checkOne(pkg.Fset, pkg.Types, pos, extraParams, rewriteImplies(cl.text), retType, ci.info)
+		xp := extraParams
+		if len(cl.callExtra) > 0 {
+			xp = append(append([]string{}, extraParams...), cl.callExtra...)
+		}
+		if cl.kind == "invariant" || cl.kind == "decreases" {
+			if _, isRange := ci.loops[cl.loop].(*ast.RangeStmt); isRange {
+				xp = append(append([]string{}, extraParams...), "rangeindex int")
+			}
+		}
+		ex, err := e.checkOne(pkg.Fset, pkg.Types, pos, xp, rewriteImplies(cl.text), retType, ci.info)
 		if err != nil {
 			return nil, fmt.Errorf("%s: %s %q: %v", cl.pos, cl.kind, cl.text, err)
 		}
@@ -267,6 +298,7 @@ type Env struct {
 	info  *types.Info
 	bound map[types.Object]*Term // quantifier-bound variables
 	isOld bool
+	loopEntry *State // state at loop entry while the invariant is first established
 }
 
 func (env *Env) typeOf(e ast.Expr) types.Type {
@@ -322,6 +354,13 @@ func (env *Env) lookupVar(id *ast.Ident) (Val, bool) {
 	if obj != nil {
 		if t, ok := env.bound[obj]; ok {
 			return t, true
+		}
+	}
+	if id.Name == "rangeindex" && env.li != nil && env.fr != nil && obj != nil && obj.Parent() != nil && obj.Pkg() != nil {
+		if al := rangeIndexCell(env.li); al != nil {
+			if v, ok := env.st.cells[al]; ok {
+				return v, true
+			}
 		}
 	}
 	if v, ok := env.vars[id.Name]; ok {
@@ -729,6 +768,18 @@ func (env *Env) call(x *ast.CallExpr) Val {
 		return u.bigConst(constant.StringVal(tv.Value))
 	case "mathWrap64":
 		return u.mathWrap64(env.eval(x.Args[0]).(*Term))
+	case "entry":
+		// value at loop entry (before the first iteration)
+		if env.li == nil || env.u.loopCtxs[env.li] == nil && env.loopEntry == nil {
+			panic(u.errf("contract: entry() is only available in loop invariants"))
+		}
+		le := env.loopEntry
+		if le == nil {
+			le = env.u.loopCtxs[env.li].entry
+		}
+		nenv := *env
+		nenv.st = le
+		return nenv.eval(x.Args[0])
 	case "implies":
 		return tb.Implies(env.eval(x.Args[0]).(*Term), env.eval(x.Args[1]).(*Term))
 	case "iff":
@@ -810,4 +861,61 @@ func (env *Env) calleeObj(f ast.Expr) types.Object {
 		return env.calleeObj(f.X)
 	}
 	return nil
+}
+
+// findCallPos locates the K-th call (source order) of the named function in body
+// (spec "name#K"; name as written at the call site, e.g. utf8.DecodeRune).
+func findCallPos(body *ast.BlockStmt, info *types.Info, pkg *packages.Package, spec string) (token.Pos, error) {
+	name, ks, _ := strings.Cut(spec, "#")
+	k := 0
+	if ks != "" {
+		fmt.Sscanf(ks, "%d", &k)
+	}
+	var found []token.Pos
+	ast.Inspect(body, func(n ast.Node) bool {
+		if ce, ok := n.(*ast.CallExpr); ok {
+			if types.ExprString(ce.Fun) == name {
+				found = append(found, ce.Lparen)
+			}
+		}
+		return true
+	})
+	if k >= len(found) {
+		return token.NoPos, fmt.Errorf("no call %s (found %d calls of %s)", spec, len(found), name)
+	}
+	return found[k], nil
+}
+
+func rangeIndexCell(li *loopInfo) *ssa.Alloc {
+	for _, in := range li.header.Instrs {
+		if ld, ok := in.(*ssa.UnOp); ok && ld.Op == token.MUL {
+			if al, ok := ld.X.(*ssa.Alloc); ok && al.Comment == "rangeindex" {
+				return al
+			}
+		}
+	}
+	return nil
+}
+
+// callResultParams: wrapper parameters naming the results of the call at lparen
+// (callResult for a single result, callResult0.. for several).
+func callResultParams(body *ast.BlockStmt, info *types.Info, pkg *types.Package, lparen token.Pos) []string {
+	var out []string
+	ast.Inspect(body, func(n ast.Node) bool {
+		ce, ok := n.(*ast.CallExpr)
+		if !ok || ce.Lparen != lparen {
+			return true
+		}
+		switch t := info.TypeOf(ce).(type) {
+		case *types.Tuple:
+			for i := 0; i < t.Len(); i++ {
+				out = append(out, fmt.Sprintf("callResult%d %s", i, typeText(t.At(i).Type(), pkg)))
+			}
+		case nil:
+		default:
+			out = append(out, "callResult "+typeText(t, pkg))
+		}
+		return false
+	})
+	return out
 }
